@@ -87,6 +87,38 @@ def run(ctx):
     ctx.append_witnesses(cases)
     tr1 = ctx.drive(drive, ["--cases", cases, "--n", "0"], "trace-gen.ndjson")
     ctx.monitor("mon-gen", "C01", "Trace_C01.tla", "Trace_C01.cfg", tr1, nontrivial=nontrivial, cover=cover)
+    # products above simple::CHUNK_LEN words (read from the source): the long operand is cut into chunks, the remainder product
+    # re-enters the dispatcher with the operands swapped; checked through sign, length and residues (IntArithDef!HugeProductOK)
+    import random
+    L = sc["MUL_SIMPLE_CHUNK_LEN"]
+    ctx.scope["huge_product_chunk_len_words"] = L
+    rnd = random.Random(ctx.seed)
+    def mag(words, kind):
+        nb = 8 * words
+        if kind == "ones":
+            v = (1 << (8 * nb)) - 1
+        elif kind == "top":
+            v = (1 << (8 * nb - 1)) + 1
+        else:
+            v = rnd.getrandbits(8 * nb) | (1 << (8 * nb - 1))
+        return list(v.to_bytes(nb, "little"))
+    shapes = [(L + 6, 20), (2 * L + 3, 24), (2 * L + 3, 2 * L + 2), (2 * L + 12, 2 * L + 2), (L + 1, L + 1), (3 * L + 5, L + 2),
+              (2 * L + 24, 2 * L), (L + 30, L + 7)]
+    if ctx.quick:
+        shapes = shapes[ctx.seed % 2::2] + [(2 * L + 3 + ctx.seed % 20, 2 * L + 2)]
+    hugec = []
+    for j, (la, lb) in enumerate(shapes):
+        for kind in (("rnd", "rnd"), ("ones", "rnd"), ("ones", "ones"))[: ctx.pick(2, 3)]:
+            a = {"s": (j + len(hugec)) % 2, "m": mag(la, kind[0])}
+            b = {"s": (j // 2) % 2, "m": mag(lb, kind[1])}
+            if (j + len(hugec)) % 3 == 0:
+                a, b = b, a
+            hugec.append({"op": "mul", "lt": "I", "rt": "I", "a": a, "b": b, "n": 0})
+    hugec.append({"op": "sqr", "lt": "U", "rt": "U", "a": {"s": 0, "m": mag(L + 9, "rnd")}, "b": {"s": 0, "m": []}, "n": 0})
+    ph = ctx.path("cases-huge.ndjson")
+    open(ph, "w").write("".join(json.dumps(c) + "\n" for c in hugec))
+    tr3 = ctx.drive(drive, ["--cases", ph, "--n", "0"], "trace-huge.ndjson")
+    ctx.monitor("mon-huge", "C01", "Trace_C01.tla", "Trace_C01.cfg", tr3, nontrivial=nontrivial, cover=cover, timeout=3000)
     # impl -> spec: seeded random operands, unbalanced sizes
     n = ctx.pick(1500, 12000)
     tr2 = ctx.drive(drive, ["--seed", str(ctx.seed), "--n", str(n), "--max-words", str(ctx.pick(40, 70))], "trace-rnd.ndjson")
